@@ -79,13 +79,16 @@ def strategy(draw):
     case = {"kind": kind, "A": A}
     if kind == "pair":
         case["B"] = draw(gen.interval_table(columns=["rid"], max_rows=30, small=small))
-    else:
-        case["bp"] = draw(st.one_of(st.just(0), st.integers(-50, 50)))
-        case["avg"] = draw(st.one_of(st.integers(1, 60), st.integers(1, 5000)))
-        case["min"] = draw(st.one_of(st.just(0), st.integers(0, 80)))
-        case["rbp"] = draw(st.one_of(st.integers(-40, 40), st.integers(-10 ** 5, 10 ** 5)))
-        case["sizes"] = draw(st.booleans())
-        case["size_slack"] = draw(st.sampled_from([0, 1, 17, 10 ** 5]))
+        # the trimmed intersection (whose row labels repeat) is fed on into the unary operations
+        case["chain"] = draw(st.booleans())
+    case["bp"] = draw(st.one_of(st.just(0), st.integers(-50, 50)))
+    case["avg"] = draw(st.one_of(st.integers(1, 60), st.integers(1, 5000)))
+    case["min"] = draw(st.one_of(st.just(0), st.integers(0, 80)))
+    case["rbp"] = draw(st.one_of(st.integers(-40, 40), st.integers(-10 ** 5, 10 ** 5)))
+    case["sizes"] = draw(st.booleans())
+    case["size_slack"] = draw(st.sampled_from([0, 1, 17, 10 ** 5]))
+    # row labels of the operands: default, shifted, stepped, or repeated (as concatenating library outputs leaves them)
+    case["index"] = draw(st.sampled_from([None, None, [5, 1], [0, 3], "dup"]))
     return case
 
 
@@ -134,6 +137,10 @@ def classify(case):
             labs.append("B-empty")
     else:
         labs += ["A-self:" + r for r in _self_relations(case["A"])]
+    if case.get("index"):
+        labs.append("index:" + ("repeated-labels" if case["index"] == "dup" else "non-default"))
+    if case.get("chain"):
+        labs.append("chained-trim-output")
     return labs
 
 
@@ -169,6 +176,7 @@ def check_case(case):
 
     A = case["A"]
     ga = gen.to_garr(A)
+    _relabel(ga, case.get("index"))
     a_by = gen.by_chrom(A)
     chroms = _chrom_order(A)
     before = ga.data.copy()
@@ -176,6 +184,7 @@ def check_case(case):
     if case["kind"] == "pair":
         B = case["B"]
         gb = gen.to_garr(B)
+        _relabel(gb, case.get("index"))
         b_by = gen.by_chrom(B)
         # ---- subtract: per row of A, exactly the bases not in B, other fields kept
         res = ga.subtract(gb).data
@@ -202,95 +211,122 @@ def check_case(case):
                 have = M.covered(got_by.get(c, []))
                 if M.covered(want) != have:
                     bad("intersection-trim", f"{c}: covers {have}, expected a AND b = {M.covered(want)}")
+            if case.get("chain") and len(res) and not out:
+                # feed the library's own output (row labels repeat, one per query range) into the unary operations
+                order = {c: i for i, c in enumerate(chroms)}
+                srt = res.assign(_k=[order[c] for c in res["chromosome"]]).sort_values(["_k", "start", "end"], kind="mergesort").drop(columns="_k")
+                T = {"cols": A["cols"], "rows": [[_norm(v) for v in r] for r in srt[A["cols"]].itertuples(index=False)]}
+                gt = ga.as_dataframe(srt)
+                n0 = len(out)
+                _unary(gt, T, case, bad)
+                for v in out[n0:]:
+                    v["clause"] = "chained:" + v["clause"]
     else:
-        # ---- merge
-        bp = case["bp"]
-        res = ga.merge(bp=bp).data
-        got = _coords(res)
-        exp = []
-        for c in chroms:
-            rows = sorted(a_by[c])
-            if bp == 0:
-                exp += [(c, s, e) for s, e in M.covered(rows)]
-            else:
-                cur = None
-                for s, e in rows:
-                    if cur is not None and s - cur[1] > -bp:
-                        exp.append((c, cur[0], cur[1]))
-                        cur = None
-                    if cur is None:
-                        cur = [s, e]
-                    else:
-                        cur[1] = max(cur[1], e)
-                if cur is not None:
-                    exp.append((c, cur[0], cur[1]))
-        if got != exp:
-            bad("merge" if bp == 0 else "merge-bp", f"merge(bp={bp}) = {got[:10]}, expected {exp[:10]}")
-        # ---- flatten
-        res = ga.flatten().data
-        got = _coords(res)
-        exp = []
-        for c in chroms:
-            pts = sorted({p for s, e in a_by[c] for p in (s, e)})
-            for rs, re_ in M.covered(a_by[c]):
-                cut = [p for p in pts if rs <= p <= re_]
-                exp += [(c, x, y) for x, y in zip(cut[:-1], cut[1:])]
-        if got != exp:
-            bad("flatten", f"flatten() = {got[:10]}, expected {exp[:10]}")
-        # ---- total_range_size
-        tot = int(ga.total_range_size())
-        want = sum(M.total(M.covered(rows)) for rows in a_by.values())
-        if tot != want:
-            bad("total_range_size", f"{tot} != {want}")
-        # ---- subdivide
-        avg, mn = case["avg"], case["min"]
-        res = ga.subdivide(avg, mn).data
-        got = _coords(res)
-        pos = 0
-        okay = True
-        for c in chroms:
-            for rs, re_ in M.covered(a_by[c]):
-                L = re_ - rs
-                if L < mn:
-                    continue
-                opts = {max(1, k) for k in _round_options(L / avg)}
-                # take consecutive bins starting at rs
-                bins = []
-                cur = rs
-                while pos < len(got) and got[pos][0] == c and got[pos][1] == cur and got[pos][2] <= re_ and cur < re_:
-                    bins.append(got[pos])
-                    cur = got[pos][2]
-                    pos += 1
-                sizes = [b[2] - b[1] for b in bins]
-                if cur != re_ or len(bins) not in opts or min(sizes) < 1 or max(sizes) - min(sizes) > 1:
-                    okay = False
-                    bad("subdivide", f"region {(c, rs, re_)} avg={avg} min={mn}: got bins {bins[:8]} (expected {sorted(opts)} equal bins covering it)")
-                    break
-            if not okay:
-                break
-        if okay and pos != len(got):
-            bad("subdivide", f"avg={avg} min={mn}: unexpected extra bins {got[pos:pos + 5]}")
-        # ---- resize_ranges
-        rbp = case["rbp"]
-        sizes = None
-        if case["sizes"]:
-            sizes = {c: max(e for _, e in a_by[c]) + case.get("size_slack", 0) for c in a_by}
-        res = ga.resize_ranges(rbp, sizes).data
-        got = [tuple(map(_norm, r)) for r in res[A["cols"]].itertuples(index=False)]
-        exp = []
-        for row in A["rows"]:
-            c, s, e = row[:3]
-            hi = sizes[c] if sizes else float("inf")
-            s2 = min(max(s - rbp, 0), hi)
-            e2 = min(max(e + rbp, 0), hi)
-            if rbp < 0 and e2 <= s2:
-                continue
-            exp.append(tuple(map(_norm, [c, s2, e2] + row[3:])))
-        if got != exp:
-            bad("resize_ranges", f"resize_ranges({rbp}, {sizes}) = {got[:8]}, expected {exp[:8]}")
+        _unary(ga, A, case, bad)
     if not ga.data.equals(before):
         bad("input-modified", "operand table changed")
     return out
+
+
+def _unary(ga, A, case, bad):
+    """merge / flatten / total_range_size / subdivide / resize_ranges of `ga`, whose rows are A["rows"] (sorted)"""
+    a_by = gen.by_chrom(A)
+    chroms = _chrom_order(A)
+    # ---- merge
+    bp = case.get("bp", 0)
+    res = ga.merge(bp=bp).data
+    got = _coords(res)
+    exp = []
+    for c in chroms:
+        rows = sorted(a_by[c])
+        if bp == 0:
+            exp += [(c, s, e) for s, e in M.covered(rows)]
+        else:
+            cur = None
+            for s, e in rows:
+                if cur is not None and s - cur[1] > -bp:
+                    exp.append((c, cur[0], cur[1]))
+                    cur = None
+                if cur is None:
+                    cur = [s, e]
+                else:
+                    cur[1] = max(cur[1], e)
+            if cur is not None:
+                exp.append((c, cur[0], cur[1]))
+    if got != exp:
+        bad("merge" if bp == 0 else "merge-bp", f"merge(bp={bp}) = {got[:10]}, expected {exp[:10]}")
+    # ---- flatten
+    res = ga.flatten().data
+    got = _coords(res)
+    exp = []
+    for c in chroms:
+        pts = sorted({p for s, e in a_by[c] for p in (s, e)})
+        for rs, re_ in M.covered(a_by[c]):
+            cut = [p for p in pts if rs <= p <= re_]
+            exp += [(c, x, y) for x, y in zip(cut[:-1], cut[1:])]
+    if got != exp:
+        bad("flatten", f"flatten() = {got[:10]}, expected {exp[:10]}")
+    # ---- total_range_size
+    tot = int(ga.total_range_size())
+    want = sum(M.total(M.covered(rows)) for rows in a_by.values())
+    if tot != want:
+        bad("total_range_size", f"{tot} != {want}")
+    # ---- subdivide
+    avg, mn = case.get("avg", 3), case.get("min", 0)
+    res = ga.subdivide(avg, mn).data
+    got = _coords(res)
+    pos = 0
+    okay = True
+    for c in chroms:
+        for rs, re_ in M.covered(a_by[c]):
+            L = re_ - rs
+            if L < mn:
+                continue
+            opts = {max(1, k) for k in _round_options(L / avg)}
+            # take consecutive bins starting at rs
+            bins = []
+            cur = rs
+            while pos < len(got) and got[pos][0] == c and got[pos][1] == cur and got[pos][2] <= re_ and cur < re_:
+                bins.append(got[pos])
+                cur = got[pos][2]
+                pos += 1
+            sizes = [b[2] - b[1] for b in bins]
+            if cur != re_ or len(bins) not in opts or min(sizes) < 1 or max(sizes) - min(sizes) > 1:
+                okay = False
+                bad("subdivide", f"region {(c, rs, re_)} avg={avg} min={mn}: got bins {bins[:8]} (expected {sorted(opts)} equal bins covering it)")
+                break
+        if not okay:
+            break
+    if okay and pos != len(got):
+        bad("subdivide", f"avg={avg} min={mn}: unexpected extra bins {got[pos:pos + 5]}")
+    # ---- resize_ranges
+    rbp = case.get("rbp", 0)
+    sizes = None
+    if case.get("sizes"):
+        sizes = {c: max(e for _, e in a_by[c]) + case.get("size_slack", 0) for c in a_by}
+    res = ga.resize_ranges(rbp, sizes).data
+    got = [tuple(map(_norm, r)) for r in res[A["cols"]].itertuples(index=False)]
+    exp = []
+    for row in A["rows"]:
+        c, s, e = row[:3]
+        hi = sizes[c] if sizes else float("inf")
+        s2 = min(max(s - rbp, 0), hi)
+        e2 = min(max(e + rbp, 0), hi)
+        if rbp < 0 and e2 <= s2:
+            continue
+        exp.append(tuple(map(_norm, [c, s2, e2] + row[3:])))
+    if got != exp:
+        bad("resize_ranges", f"resize_ranges({rbp}, {sizes}) = {got[:8]}, expected {exp[:8]}")
+
+
+def _relabel(garr, index):
+    n = len(garr.data)
+    if index is None or not n:
+        return
+    if index == "dup":
+        garr.data.index = [i // 2 for i in range(n)]
+    else:
+        garr.data.index = [index[0] + index[1] * i for i in range(n)]
 
 
 def _norm(x):
